@@ -166,5 +166,256 @@ level ≤ 100 (`not_too_deep_le`) and every recursive call is made at a strictly
 theorem depth_bound (p : RawParameters) (s : Str) (h : p.nestingTooDeep = false) :
     p.level ≤ 100 ∧ p.level < (p.next s).level := ⟨not_too_deep_le p h, next_level_gt p s⟩
 
+/-! ### what a look-up finds: locals before globals, literals, fall-backs, absence -/
+
+/-- the key of entry `i` of a haystack -/
+theorem getD_append_left_fst (locals globals : List (Str × Str)) (i : Nat) (h : i < locals.length) :
+    ((locals ++ globals).getD i ([], [])) = locals.getD i ([], []) := by
+  simp [List.getD_eq_getElem?_getD, List.getElem?_append_left h]
+
+/-- **step-local values win over caller values**: when the step's own parameters hold the key,
+the look-up starts at one of them, whatever the caller's environment holds -/
+theorem local_wins (locals globals : List (Str × Str)) (key : Str) (j : Nat) (hj : j < locals.length)
+    (hkey : (locals.getD j ([], [])).1 = key) :
+    ∃ i, i < locals.length ∧ findUnvisited (locals ++ globals) [] key = some i := by
+  unfold findUnvisited
+  have hex : ∃ i ∈ List.range (locals ++ globals).length,
+      (!([] : List Nat).contains i && ((locals ++ globals).getD i ([], [])).1 == key) = true := by
+    refine ⟨j, by simp; omega, ?_⟩
+    rw [getD_append_left_fst _ _ _ hj, hkey]
+    simp
+  obtain ⟨i, hi⟩ := Option.isSome_iff_exists.mp (List.find?_isSome.mpr hex)
+  refine ⟨i, ?_, hi⟩
+  -- the first index with the key is at most `j`
+  rcases Nat.lt_or_ge i locals.length with h | hge
+  · exact h
+  · exfalso
+    have hlt : j < i := by omega
+    obtain ⟨_, k, hk, hik, hbefore⟩ := List.find?_eq_some_iff_getElem.mp hi
+    simp only [List.getElem_range] at hik
+    subst hik
+    have := hbefore j hlt
+    simp only [List.getElem_range, List.contains_nil, Bool.not_false, Bool.true_and, Bool.not_eq_true',
+      beq_eq_false_iff_ne, ne_eq] at this
+    rw [getD_append_left_fst _ _ _ hj] at this
+    exact this hkey
+
+/-- **caller values are visible where the step has none of its own**: when no parameter of the step
+carries the key, the look-up starts in the caller's environment, at the first entry for the key -/
+theorem caller_visible (locals globals : List (Str × Str)) (key : Str) (j : Nat) (hj : j < globals.length)
+    (hkey : (globals.getD j ([], [])).1 = key)
+    (hnolocal : ∀ i, i < locals.length → (locals.getD i ([], [])).1 ≠ key) :
+    ∃ i, locals.length ≤ i ∧ i < locals.length + globals.length ∧
+      findUnvisited (locals ++ globals) [] key = some i := by
+  unfold findUnvisited
+  have hex : ∃ i ∈ List.range (locals ++ globals).length,
+      (!([] : List Nat).contains i && ((locals ++ globals).getD i ([], [])).1 == key) = true := by
+    refine ⟨locals.length + j, by simp; omega, ?_⟩
+    have : (locals ++ globals).getD (locals.length + j) ([], []) = globals.getD j ([], []) := by
+      simp [List.getD_eq_getElem?_getD, List.getElem?_append_right (Nat.le_add_right _ _)]
+    rw [this, hkey]
+    simp
+  obtain ⟨i, hi⟩ := Option.isSome_iff_exists.mp (List.find?_isSome.mpr hex)
+  have hm := List.mem_of_find?_eq_some hi
+  have hp := List.find?_some hi
+  simp only [List.mem_range, List.length_append] at hm
+  refine ⟨i, ?_, hm, hi⟩
+  rcases Nat.lt_or_ge i locals.length with h | hge
+  · exfalso
+    simp only [List.contains_nil, Bool.not_false, Bool.true_and, beq_iff_eq] at hp
+    rw [getD_append_left_fst _ _ _ h] at hp
+    exact hnolocal i h hp
+  · exact hge
+
+/-- a look-up that meets a literal value returns it (trimmed): no further chasing -/
+theorem chaseLoop_literal (hay : List (Str × Str)) (key : Str) (fuel : Nat) (visited : List Nat) (needle default : Str)
+    (chasing : Bool) (i : Nat) (hfound : findUnvisited hay visited needle = some i)
+    (h1 : stripPrefix (S "$") (trim (hay.getD i ([], [])).2) = none)
+    (h2 : stripPrefix (S "(") (trim (hay.getD i ([], [])).2) = none) :
+    chaseLoop hay key (fuel + 1) visited needle default chasing = .ok (some (trim (trim (hay.getD i ([], [])).2))) := by
+  simp only [chaseLoop, hfound, h1, h2]
+
+/-- **an absent name**: the fall-back `d` of `$name(d)` / `(d)` if there is one, an error when the
+look-up came from a `$name` reference, "not given" otherwise (the operator's default applies) -/
+theorem chaseLoop_absent (hay : List (Str × Str)) (key : Str) (fuel : Nat) (visited : List Nat) (needle default : Str)
+    (chasing : Bool) (habsent : findUnvisited hay visited needle = none) :
+    chaseLoop hay key (fuel + 1) visited needle default chasing =
+      if !default.isEmpty then .ok (some default) else if chasing then .error .syntax else .ok none := by
+  simp only [chaseLoop, habsent]
+
+/-- `key=$name`: the look-up goes on for `name`, now as a reference that must resolve -/
+theorem chaseLoop_reference (hay : List (Str × Str)) (key : Str) (fuel : Nat) (visited : List Nat) (needle default : Str)
+    (chasing : Bool) (i : Nat) (name stripped : Str) (hfound : findUnvisited hay visited needle = some i)
+    (h1 : stripPrefix (S "$") (trim (hay.getD i ([], [])).2) = some stripped)
+    (hparts : (splitOnAny ['(', ')'] (trim stripped)).filter (fun x => !(trim x).isEmpty) = [name]) :
+    chaseLoop hay key (fuel + 1) visited needle default chasing = chaseLoop hay key fuel (i :: visited) name default true := by
+  simp only [chaseLoop, hfound, h1, hparts]
+
+/-- `key=$name(d)`: as before, with the fall-back `d` -/
+theorem chaseLoop_reference_default (hay : List (Str × Str)) (key : Str) (fuel : Nat) (visited : List Nat)
+    (needle default : Str) (chasing : Bool) (i : Nat) (name d stripped : Str)
+    (hfound : findUnvisited hay visited needle = some i)
+    (h1 : stripPrefix (S "$") (trim (hay.getD i ([], [])).2) = some stripped)
+    (hparts : (splitOnAny ['(', ')'] (trim stripped)).filter (fun x => !(trim x).isEmpty) = [name, d]) :
+    chaseLoop hay key (fuel + 1) visited needle default chasing = chaseLoop hay key fuel (i :: visited) name d true := by
+  simp only [chaseLoop, hfound, h1, hparts]
+
+/-- `key=(d)`: the look-up goes on for the key itself (in the caller's environment: this entry is
+now visited), with the fall-back `d` -/
+theorem chaseLoop_optional (hay : List (Str × Str)) (key : Str) (fuel : Nat) (visited : List Nat) (needle default : Str)
+    (chasing : Bool) (i : Nat) (stripped : Str) (hfound : findUnvisited hay visited needle = some i)
+    (h1 : stripPrefix (S "$") (trim (hay.getD i ([], [])).2) = none)
+    (h2 : stripPrefix (S "(") (trim (hay.getD i ([], [])).2) = some stripped) :
+    chaseLoop hay key (fuel + 1) visited needle default chasing =
+      chaseLoop hay key fuel (i :: visited) key (trimEndMatches ')' stripped) true := by
+  simp only [chaseLoop, hfound, h1, h2]
+
+/-- **`key=$name` with `name` absent everywhere is an error**, for a parameter of any type (the
+look-up does not know the type) -/
+theorem reference_to_absent_name_is_error (hay : List (Str × Str)) (key : Str) (fuel : Nat) (i : Nat) (name stripped : Str)
+    (hfound : findUnvisited hay [] key = some i)
+    (h1 : stripPrefix (S "$") (trim (hay.getD i ([], [])).2) = some stripped)
+    (hparts : (splitOnAny ['(', ')'] (trim stripped)).filter (fun x => !(trim x).isEmpty) = [name])
+    (habsent : findUnvisited hay [i] name = none) :
+    chaseLoop hay key (fuel + 2) [] key [] false = .error .syntax := by
+  rw [chaseLoop_reference hay key (fuel + 1) [] key [] false i name stripped hfound h1 hparts,
+    chaseLoop_absent hay key fuel [i] name [] true habsent]
+  simp
+
+/-- **`key=$name(d)` with `name` absent falls back to `d`** -/
+theorem reference_with_default (hay : List (Str × Str)) (key : Str) (fuel : Nat) (i : Nat) (name d stripped : Str)
+    (hfound : findUnvisited hay [] key = some i)
+    (h1 : stripPrefix (S "$") (trim (hay.getD i ([], [])).2) = some stripped)
+    (hparts : (splitOnAny ['(', ')'] (trim stripped)).filter (fun x => !(trim x).isEmpty) = [name, d])
+    (habsent : findUnvisited hay [i] name = none) (hd : d.isEmpty = false) :
+    chaseLoop hay key (fuel + 2) [] key [] false = .ok (some d) := by
+  rw [chaseLoop_reference_default hay key (fuel + 1) [] key [] false i name d stripped hfound h1 hparts,
+    chaseLoop_absent hay key fuel [i] name d true habsent]
+  simp [hd]
+
+/-! ### a macro invocation is the instantiation of its body in the extended environment -/
+
+/-- unfolding of `instantiate` for an invocation of a macro (a name with a colon, no user operator
+involved at that point: names with a colon are looked up among the resources first): **the body
+is instantiated with the invocation's arguments in its environment (`RawParameters.next`), the
+result inverted if the invocation carries `inv`, and given the invocation's omit flags** -/
+theorem macro_invocation_is_expansion {R : Type} [Scalar R] (env : Env R) (fuel : Nat) (p : RawParameters) (body : Str)
+    (hdeep : p.nestingTooDeep = false) (hpipe : isPipeline p.definition = false)
+    (hres : isResourceName (operatorName p.definition) = true)
+    (hbody : env.resource (operatorName p.definition) = some body) :
+    instantiate env (fuel + 1) p =
+      (instantiate env fuel { p.next p.definition with definition := body }).map fun r =>
+        match r with
+        | .ok o =>
+          match handleInversion o (argSet (splitIntoParameters p.definition) (S "inv")) with
+          | .ok o => .ok (setOmits o (splitIntoParameters p.definition))
+          | .error e => .error e
+        | .error e => .error e := by
+  rw [instantiate]
+  simp only [hdeep, hpipe, hres, hbody, Bool.false_eq_true, if_false, Bool.not_true]
+  rfl
+
+/-! ### the environment handed to a macro body (`RawParameters::next`) -/
+
+theorem pmap_get?_insert_same (m : PMap) (k v : Str) : (m.insert k v).get? k = some v := by
+  simp [PMap.insert, PMap.get?]
+
+theorem find?_filter_ne (m : PMap) (k k' : Str) (h : k' ≠ k) :
+    (m.filter (·.1 != k)).find? (·.1 == k') = m.find? (·.1 == k') := by
+  induction m with
+  | nil => rfl
+  | cons e rest ih =>
+    by_cases he : e.1 = k
+    · have h1 : (e.1 != k) = false := by simp [he]
+      have h2 : (e.1 == k') = false := by
+        rw [he]; simpa using fun hh => h hh.symm
+      simp only [List.filter_cons, h1, Bool.false_eq_true, if_false, List.find?_cons, h2]
+      exact ih
+    · have h1 : (e.1 != k) = true := by simpa using he
+      simp only [List.filter_cons, h1, if_true, List.find?_cons]
+      cases e.1 == k' <;> simp [ih]
+
+theorem pmap_get?_insert_ne (m : PMap) (k k' v : Str) (h : k' ≠ k) : (m.insert k v).get? k' = m.get? k' := by
+  have h2 : (k == k') = false := by simpa using fun hh => h hh.symm
+  simp only [PMap.insert, PMap.get?, List.find?_cons, h2, find?_filter_ne m k k' h]
+
+theorem pmap_get?_erase_ne (m : PMap) (k k' : Str) (h : k' ≠ k) : (m.erase k).get? k' = m.get? k' := by
+  simp only [PMap.erase, PMap.get?, find?_filter_ne m k k' h]
+
+/-- extending an environment leaves every key that the extension does not mention as it was -/
+theorem pmap_get?_extend_not_mem (m n : PMap) (k : Str) (h : ∀ e ∈ n, e.1 ≠ k) : (m.extend n).get? k = m.get? k := by
+  unfold PMap.extend
+  induction n generalizing m with
+  | nil => rfl
+  | cons e rest ih =>
+    simp only [List.foldl_cons]
+    rw [ih _ (fun e' he' => h e' (List.mem_cons_of_mem _ he'))]
+    exact pmap_get?_insert_ne m e.1 k e.2 (fun hh => h e List.mem_cons_self hh.symm)
+
+/-- ... and binds the key of its last entry to that entry's value -/
+theorem pmap_get?_extend_last (m n1 n2 : PMap) (k v : Str) (h : ∀ e ∈ n2, e.1 ≠ k) :
+    (m.extend (n1 ++ (k, v) :: n2)).get? k = some v := by
+  unfold PMap.extend
+  rw [List.foldl_append, List.foldl_cons]
+  have := pmap_get?_extend_not_mem ((List.foldl (fun acc e => acc.insert e.1 e.2) m n1).insert k v) n2 k h
+  unfold PMap.extend at this
+  rw [this, pmap_get?_insert_same]
+
+/-- **caller arguments are visible to the body of a macro regardless of how parameters are named**:
+whatever the caller's environment binds and the invocation does not rebind (other than the
+operator name and the three modifiers, which belong to the invocation itself) is bound the same
+way in the environment the body is instantiated in -/
+theorem next_keeps_caller_values (self : RawParameters) (definition : Str) (k : Str)
+    (hres : isResourceName definition = true)
+    (hfresh : ((splitIntoParameters definition).contains nameKey &&
+      self.globals.get? nameKey == (splitIntoParameters definition).get? nameKey) = false)
+    (hnot : ∀ e ∈ splitIntoParameters definition, e.1 ≠ k)
+    (hk : k ≠ nameKey ∧ k ≠ S "inv" ∧ k ≠ S "omit_fwd" ∧ k ≠ S "omit_inv") :
+    (self.next definition).globals.get? k = self.globals.get? k := by
+  unfold RawParameters.next
+  simp only [hres, if_true, hfresh, Bool.false_eq_true, if_false]
+  rw [pmap_get?_erase_ne _ _ _ hk.2.2.2, pmap_get?_erase_ne _ _ _ hk.2.2.1, pmap_get?_erase_ne _ _ _ hk.2.1,
+    pmap_get?_extend_not_mem, pmap_get?_erase_ne _ _ _ hk.1]
+  intro e he
+  simp only [List.mem_map] at he
+  obtain ⟨e0, he0, rfl⟩ := he
+  have := hnot e0 he0
+  split <;> exact this
+
+/-- **an argument of the invocation is bound in the body's environment**, to the value written or,
+when that is a reference to the caller's parameters, to what it resolves to in the caller's
+environment (the last of repeated keys wins) -/
+theorem next_binds_argument (self : RawParameters) (definition : Str) (k v : Str) (args1 args2 : PMap)
+    (hres : isResourceName definition = true)
+    (hfresh : ((splitIntoParameters definition).contains nameKey &&
+      self.globals.get? nameKey == (splitIntoParameters definition).get? nameKey) = false)
+    (hsplit : splitIntoParameters definition = args1 ++ (k, v) :: args2)
+    (hlast : ∀ e ∈ args2, e.1 ≠ k)
+    (hk : k ≠ S "inv" ∧ k ≠ S "omit_fwd" ∧ k ≠ S "omit_inv") :
+    (self.next definition).globals.get? k =
+      some (match chase self.globals [(k, v)] k with
+        | .ok (some r) => r
+        | _ => v) := by
+  unfold RawParameters.next
+  simp only [hres, if_true, hfresh, Bool.false_eq_true, if_false]
+  rw [pmap_get?_erase_ne _ _ _ hk.2.2, pmap_get?_erase_ne _ _ _ hk.2.1, pmap_get?_erase_ne _ _ _ hk.1, hsplit,
+    List.map_append, List.map_cons]
+  have hkeys : ∀ e ∈ List.map (fun (e : Str × Str) =>
+      match chase self.globals [(e.1, e.2)] e.1 with
+      | .ok (some r) => (e.1, r)
+      | _ => e) args2, e.1 ≠ k := by
+    intro e he
+    simp only [List.mem_map] at he
+    obtain ⟨e0, he0, rfl⟩ := he
+    have := hlast e0 he0
+    split <;> exact this
+  simp only []
+  cases hc : chase self.globals [(k, v)] k with
+  | error err => exact pmap_get?_extend_last _ _ _ k v hkeys
+  | ok o =>
+    cases o with
+    | none => exact pmap_get?_extend_last _ _ _ k v hkeys
+    | some r => exact pmap_get?_extend_last _ _ _ k r hkeys
+
 end C04
 end Geodesy
